@@ -327,6 +327,34 @@ Section Envelope.
       destruct (plan_state _ _ _ _ _ _ Epl) as (_ & -> & _). destruct c; [reflexivity|apply total_set_nonce].
   Qed.
 
+  (** What the state handed to the interpreter looks like. *)
+  Lemma invocation_facts e (s : state) m c s0 g : wf_msg m -> invocation e s m = Some (c, s0, g) ->
+    c = is_create m /\
+    has_code s0 = has_code s /\ suicided s0 = suicided s /\ dberr s0 = dberr s /\
+    (forall a, a <> m_from m -> nonce s0 a = nonce s a /\ bal s0 a = bal s a) /\
+    nonce s0 (m_from m) = (if c then nonce s (m_from m) else next_nonce (nonce s (m_from m))) /\
+    m_value m <= bal s0 (m_from m) /\ bal s0 (m_from m) <= bal s (m_from m).
+  Proof.
+    clear clean run. intros Hwf Hinv. unfold invocation in Hinv.
+    destruct (pre_check e s m) as [b|] eqn:Hp; [|discriminate].
+    destruct (plan_of e b m) as [|c' s0' g'] eqn:Epl; [discriminate|]. inversion Hinv; subst c' s0' g'.
+    destruct (plan_state _ _ _ _ _ _ Epl) as (Ec & Es0 & Hv).
+    pose proof (pre_check_inl _ _ _ _ Hp) as Eb.
+    destruct (buy_gas_spec e s m Hwf) as (cost & Hc1 & Hc2 & _). rewrite <- Eb in *.
+    rewrite Es0, Hc2 in *. clear Es0.
+    split; [exact Ec|].
+    destruct c; cbn [set_nonce set_bal has_code suicided dberr nonce bal] in *.
+    - refine (conj eq_refl (conj eq_refl (conj eq_refl (conj _ (conj eq_refl (conj _ _)))))).
+      + intros x Hx. now rewrite upd_other.
+      + exact Hv.
+      + rewrite upd_same. lia.
+    - refine (conj eq_refl (conj eq_refl (conj eq_refl (conj _ (conj _ (conj _ _)))))).
+      + intros x Hx. now rewrite !upd_other.
+      + now rewrite upd_same.
+      + exact Hv.
+      + rewrite upd_same. lia.
+  Qed.
+
   (** * Exact accounting of the ONG sum for every accepted transaction, on every chain id *)
   Theorem ong_accounting U e (s : state) m :
     wf_msg m -> NoDup U -> In (m_from m) U -> In (gas_receiver e) U ->
@@ -359,6 +387,53 @@ Section Envelope.
     repeat split.
     - lia.
     - intros Hfix. rewrite (Hc5 (or_introl Hfix)). lia.
+    - lia.
+    - intros Hh. unfold gasfee_skip. destruct (N.eqb_spec (height e) REFUND_HEIGHT); [contradiction|].
+      now rewrite orb_true_r.
+    - destruct (gasfee_skip _ _); lia.
+  Qed.
+
+  (** The interpreter may destroy ONG (H_sum replaced by an inequality): the envelope still never
+      creates any, the compensation payment aside. *)
+  Definition H_sum_le U e s m := inv_holds e s m (fun _ s0 _ r => total U (r_state r) <= total U s0).
+
+  Lemma total_run_phase_le U e (s : state) m b : H_sum_le U e s m -> pre_check e s m = inl b ->
+    total U (x_state (run_phase run e b m)) <= total U (b_state b).
+  Proof.
+    intros Hsum Hp. unfold run_phase. destruct (plan_of e b m) as [err gl|c s0 g] eqn:Epl; cbn [x_state].
+    - rewrite total_set_nonce. lia.
+    - pose proof (Hsum c s0 g (invocation_of_plan _ _ _ _ _ _ _ Hp Epl)) as Hle. cbn beta in Hle.
+      destruct (plan_state _ _ _ _ _ _ Epl) as (_ & Es0 & _). rewrite Es0 in Hle at 2.
+      destruct c; [exact Hle|]. now rewrite total_set_nonce in Hle.
+  Qed.
+
+  Theorem ong_never_minted U e (s : state) m :
+    wf_msg m -> NoDup U -> In (m_from m) U -> In (gas_receiver e) U ->
+    H_gas e s m -> H_sum_le U e s m ->
+    exists mint,
+      total U (snd (handle_eip155 clean run e s m)) <= total U s + mint /\
+      (height e <> REFUND_HEIGHT -> mint = 0) /\ mint <= REFUND_VALUE.
+  Proof.
+    intros Hwf Hnd Hf Hr Hgas Hsum. unfold handle_eip155.
+    destruct (pre_check e s m) as [b|err] eqn:Hp.
+    2:{ unfold transition_db. rewrite Hp. exists 0. cbn [snd]. repeat split; lia. }
+    destruct (transition_eq e s m b Hwf Hgas Hp) as (stgas & Hs1 & Hs2 & _ & ->).
+    cbv beta iota zeta.
+    match goal with |- context [snd (if ?c then (?a, ?x) else (?b, ?x))] =>
+      replace (snd (if c then (a, x) else (b, x))) with x by (destruct c; reflexivity) end.
+    pose proof (pre_check_inl _ _ _ _ Hp) as Eb.
+    destruct (buy_gas_spec e s m Hwf) as (cost & Hc1 & Hc2 & Hc3 & Hc4 & Hc5 & _ & _ & _).
+    rewrite <- Eb in *.
+    set (G := b_initial b) in *.
+    exists (if gasfee_skip (b_adjusted b) (height e) then 0 else REFUND_VALUE).
+    rewrite total_commit, total_add_balance by assumption.
+    rewrite total_pay_back by assumption.
+    pose proof (total_run_phase_le U e s m b Hsum Hp) as Hle.
+    rewrite N.mul_sub_distr_r.
+    assert (stgas * m_price m <= G * m_price m) by (apply N.mul_le_mono_r; assumption).
+    rewrite Hc2 in Hle.
+    pose proof (total_set_bal_in _ U s (m_from m) (bal s (m_from m) - cost) Hnd Hf) as Hset.
+    repeat split.
     - lia.
     - intros Hh. unfold gasfee_skip. destruct (N.eqb_spec (height e) REFUND_HEIGHT); [contradiction|].
       now rewrite orb_true_r.
